@@ -2,7 +2,9 @@
 
    Model of `MonitoredItem::{new, enqueue_notification_message, modify, all_notifications}` and
    `sanitize_queue_size` as committed in the repository (after
-   "fix: shrinking a monitored item queue computed queue_size - len and underflowed").
+   "fix: shrinking a monitored item queue computed queue_size - len and underflowed" and
+   "fix: a configured maximum queue size of 0 revised queue sizes to 0 and the queue grew
+   without bound").
    The `VecDeque<Notification>` is a list, oldest first; an entry is its payload and whether the
    OVERFLOW info bit (0x80) was or-ed into its status.  usize/u32 are Z.  Rust panic sites
    (usize subtraction with overflow checks, `drain` past the end) are explicit [Panic] outcomes;
